@@ -59,7 +59,7 @@ class PList:
         self.root = root
 
 
-def sym_obj(eng, spec, name, alpha):
+def sym_obj(eng, spec, name, alpha, kalpha=6):
     """spec -> python object tree with Pay leaves.  spec grammar:
     ('i', L) int leaf of L digits | ('s', L) str leaf of L letters | ('b', v) | ('n',) |
     ('list', [spec..]) | ('mset', [spec..]) | ('dict', [(klen, spec)..]) | ('plist', spec)"""
@@ -73,9 +73,9 @@ def sym_obj(eng, spec, name, alpha):
     if k == 'n':
         return None
     if k == 'list':
-        return [sym_obj(eng, s, f"{name}{i}", alpha) for i, s in enumerate(spec[1])]
+        return [sym_obj(eng, s, f"{name}{i}", alpha, kalpha) for i, s in enumerate(spec[1])]
     if k == 'mset':
-        m = MSet(sym_obj(eng, s, f"{name}{i}", alpha) for i, s in enumerate(spec[1]))
+        m = MSet(sym_obj(eng, s, f"{name}{i}", alpha, kalpha) for i, s in enumerate(spec[1]))
         if len(spec) < 3 or spec[2] != 'dups':
             # region of the listed finding KF-mset-duplicates is excluded here and explored by dedicated jobs
             for x, y in itertools.combinations(m, 2):
@@ -83,14 +83,15 @@ def sym_obj(eng, spec, name, alpha):
                 eng.assume(z3.Not(r.e) if builtins.isinstance(r, SBool) else (not r))
         return m
     if k == 'dict':
-        keys = [fresh_pay(eng, f"{name}k{i}", kl, 'str', alpha) for i, (kl, _) in enumerate(spec[1])]
+        # key alphabet >= number of keys of both mappings, so that 'no key shared' .. 'all keys shared' are all realisable
+        keys = [fresh_pay(eng, f"{name}k{i}", kl, 'str', kalpha) for i, (kl, _) in enumerate(spec[1])]
         for x, y in itertools.combinations(keys, 2):
             r = (x == y)
             eng.assume(z3.Not(r.e) if builtins.isinstance(r, SBool) else (not r))
-        vals = [sym_obj(eng, vs, f"{name}v{i}", alpha) for i, (_, vs) in enumerate(spec[1])]
+        vals = [sym_obj(eng, vs, f"{name}v{i}", alpha, kalpha) for i, (_, vs) in enumerate(spec[1])]
         return dict(zip(keys, vals))
     if k == 'plist':
-        return PList(sym_obj(eng, spec[1], name + 'r', alpha))
+        return PList(sym_obj(eng, spec[1], name + 'r', alpha, kalpha))
     raise ValueError(spec)
 
 
@@ -578,8 +579,8 @@ def run_tree_job(job, body, site_default='diff', path_wall_s=20, tick_cap=40000,
 
     def fn(eng):
         stubs.LSA_MEMO = {}       # scipy is a function of its input: same symbolic table => same assignment on this path
-        objA = sym_obj(eng, job['A'], 'a', alpha)
-        objB = sym_obj(eng, job['B'], 'b', alpha)
+        objA = sym_obj(eng, job['A'], 'a', alpha, job.get('kalpha', 6))
+        objB = sym_obj(eng, job['B'], 'b', alpha, job.get('kalpha', 6))
         eng.notes['objs'] = (objA, objB)
         opts = build_options(job.get('dict', 'auto'), job.get('list', 'on'))
         A = to_tree(objA, opts)
@@ -729,9 +730,17 @@ def families(tier, want=None):
         for m in range(4):
             for pa, pb in mp:
                 A, B_ = fam_dict(n, m, pa, pb)
-                strategies = ['auto', 'none'] + (['match'] if n + m <= (4 if quick else 5) else [])
+                big = n + m >= 5
+                if quick and big and (pa, pb) != ('a', 'a'):
+                    continue                      # quick: the 5- and 6-key pairs only with one length pattern
+                strategies = ['none']
+                if not (quick and n + m >= 5):
+                    strategies.append('auto')     # 5-6 keys under 'auto': 2k-30k paths, thorough only
+                if n + m <= 3 or (n + m == 4 and (not quick or (pa, pb) == ('a', 'a'))) or (not quick and n + m <= 5 and (pa, pb) == ('a', 'a')):
+                    strategies.append('match')
                 for st in strategies:
-                    out.append((f"dict{n}{m}{pa}{pb}", A, B_, [st], ['on'], (n * m * (8 if st == 'match' else 1)) + 1))
+                    w = (n * m * (8 if st == 'match' else (4 if st == 'auto' else 1))) + 1
+                    out.append((f"dict{n}{m}{pa}{pb}", A, B_, [st], ['on'], w))
     # nested, depth 2
     nested = [
         ('LL-12-21', L(L(I()), L(I(), I(2))), L(L(I(), I()), L(I(2)))),
@@ -756,6 +765,8 @@ def families(tier, want=None):
         ]
     for name, A, B_ in nested:
         for st in ['auto', 'none', 'match']:
+            if quick and st == 'match' and name not in ('DD2', 'DL2', 'LL-2-2'):
+                continue
             for lm in (['on', 'off'] if 'L' in name else ['on']):
                 out.append((name, A, B_, [st], [lm], 20))
     # cross-kind and scalar kinds (Replace / kind-changing matches)
@@ -795,6 +806,8 @@ def tree_jobs(tier, want=None, extra=None, skip=None):
             for lm in modes:
                 j = dict(fam=name, A=A, B=B_, dict=st, list=lm, weight=weight,
                          alpha=3 if tier == 'quick' else 4)
+                if weight >= 20:
+                    j['split_depth'] = 24
                 if extra:
                     j['extra'] = dict(extra)
                 jobs.append(j)
@@ -848,8 +861,9 @@ TREE_FILES = ['graphtage/levenshtein.py', 'graphtage/multiset.py', 'graphtage/se
 
 def tree_bounds_text(tier):
     if tier == 'quick':
-        return ("lists n,m<=3 x 3 list modes; multisets n+m<=5; mappings n,m<=3 x {auto,none} (+match for n+m<=4); 11 depth-2 "
-                "nestings (list/dict of list/dict) x 3 strategies x list on/off; 13 cross-kind pairs (null/bool/str/int/list/dict/"
-                "multiset); plist wrappers; leaf lengths mixed 1/2; alphabet 3; every leaf value symbolic")
+        return ("lists n,m<=3 x 3 list modes; multisets n+m<=5; mappings n,m<=3 x {none, auto (n+m<=4), match (n+m<=4)}; 11 depth-2 "
+                "nestings (list/dict of list/dict) x {auto,none} (+match for three) x list on/off; 13 cross-kind pairs (null/bool/str/"
+                "int/list/dict/multiset); plist wrappers; leaf lengths mixed 1/2; value alphabet 3, key alphabet 6 (>= number of keys "
+                "of both mappings: every shared/unshared key pattern is realisable); every leaf value and key symbolic")
     return ("lists n,m<=4 (n+m<=7) x 3 list modes x 4 length patterns; multisets n+m<=6; mappings n,m<=3 x 3 strategies; 16 depth-2/3 "
             "nestings; cross-kind pairs; plist wrappers; alphabet 4")
